@@ -666,10 +666,12 @@ pub fn ev_index<K: Kmer + Send + Sync>(sink: &Sink, r: &mut Rng, inp: &GInput, n
             // terminal k-mers of the answering node so the oracle can judge it without the whole graph
             let mut sample: Vec<Value> = Vec::new();
             let step = if embed { 1 } else { std::cmp::max(1, probes.len() / 400) };
-            let mut by_seq: std::collections::HashMap<&[u8], usize> = std::collections::HashMap::new();
+            let mut by_first: std::collections::HashMap<&[u8], usize> = std::collections::HashMap::new();
+            let mut by_last: std::collections::HashMap<&[u8], usize> = std::collections::HashMap::new();
             if !embed {
                 for (i, n) in nodes.iter().enumerate() {
-                    by_seq.insert(&n.s[..], i);
+                    by_first.insert(&n.s[..k], i);
+                    by_last.insert(&n.s[n.s.len() - k..], i);
                 }
             }
             for i in (0..probes.len()).step_by(step) {
@@ -682,9 +684,10 @@ pub fn ev_index<K: Kmer + Send + Sync>(sink: &Sink, r: &mut Rng, inp: &GInput, n
                     }
                     None => (vec![], vec![]),
                 };
-                let fw = by_seq.get(&x[..]).map(|v| *v as i64).unwrap_or(-1);
-                let rv = by_seq.get(&rc_bytes(x)[..]).map(|v| *v as i64).unwrap_or(-1);
-                sample.push(json!({"k": x, "dir": dir_str(*d), "ans": a, "first": first, "last": last, "fw": fw, "rv": rv}));
+                let rcx = rc_bytes(x);
+                let g = |m: &std::collections::HashMap<&[u8], usize>, key: &[u8]| m.get(key).map(|v| *v as i64).unwrap_or(-1);
+                sample.push(json!({"k": x, "dir": dir_str(*d), "ans": a, "first": first, "last": last,
+                    "ff": g(&by_first, x), "ll": g(&by_last, x), "fr": g(&by_first, &rcx), "lr": g(&by_last, &rcx)}));
             }
             e["sample"] = json!(sample);
             e["panic"] = json!("");
@@ -699,18 +702,26 @@ pub fn ev_index<K: Kmer + Send + Sync>(sink: &Sink, r: &mut Rng, inp: &GInput, n
     sink.emit(e);
 }
 
-/// a big graph of distinct single-k-mer nodes (so the parallel index builder really splits work)
+/// a big graph of short nodes (1-4 k-mers each) with pairwise distinct terminal k-mers on both strands, so that the
+/// parallel index builder really splits the work and first / last k-mers differ
 pub fn big_nodes(r: &mut Rng, k: usize, n: usize, stranded: bool) -> Vec<NodeP> {
-    let mut seen = std::collections::HashSet::new();
+    let mut seen: std::collections::HashSet<Vec<u8>> = std::collections::HashSet::new();
     let mut out = Vec::with_capacity(n);
+    let canon = |s: &[u8]| if stranded { s.to_vec() } else { std::cmp::min(s.to_vec(), rc_bytes(s)) };
     while out.len() < n {
-        let s = r.dna(k, &[0, 1, 2, 3]);
-        let key = if stranded { s.clone() } else { std::cmp::min(s.clone(), rc_bytes(&s)) };
-        if s == rc_bytes(&s) || !seen.insert(key) {
+        let len = k + r.below(4);
+        let s = r.dna(len, &[0, 1, 2, 3]);
+        let f = canon(&s[..k]);
+        let l = canon(&s[len - k..]);
+        if s[..k] == rc_bytes(&s[..k])[..] || s[len - k..] == rc_bytes(&s[len - k..])[..] {
             continue;
         }
+        if seen.contains(&f) || seen.contains(&l) || (len > k && f == l) {
+            continue;
+        }
+        seen.insert(f);
+        seen.insert(l);
         out.push(NodeP { s, l: vec![], r: vec![], d: vec![1] });
     }
     out
 }
-
